@@ -13,6 +13,17 @@ Theorem writer_emits_accepted : forall (CS : Type) (c : cid CS) rows w wf es,
   l_line (w_loc wf) = l_line (w_loc w) + length (accepted_of rows es).
 Proof. intros CS. exact write_all_emits. Qed.
 
+(* the same when the target's encoding cannot represent every character (a file or stream in ASCII, say): a row the
+   encoding refuses is rejected like any other, nothing of it reaches the output, later calls proceed; and every
+   emitted row is representable *)
+Theorem writer_emits_accepted_whatever_the_encoding : forall (CS : Type) enc (c : cid CS) rows w wf es,
+  write_all_enc enc c w rows = (wf, es) ->
+  length es = length rows /\
+  w_rows wf = w_rows w ++ accepted_of rows es /\
+  l_line (w_loc wf) = l_line (w_loc w) + length (accepted_of rows es) /\
+  Forall (fun r => forallb (forallb enc) r = true) (accepted_of rows es).
+Proof. intros CS. exact write_all_enc_emits. Qed.
+
 (* a row is accepted by write_row under exactly the conditions of C04 (it is the same validate_row), unless the
    writer's line counter is still inside the header *)
 Theorem writer_validates_like_reader : forall (CS : Type) (c : cid CS) (w : wstate CS) row,
